@@ -24,7 +24,8 @@ import (
 var base = time.Unix(1699999200, 0).UTC()
 
 const (
-	nWorkers = 2
+	maxExecutions = 3000 // per scheduler instance; a 36-step behaviour with the clock below 60 s stays far below
+	nWorkers      = 2
 	deadline = 40 * time.Second // for every wait; a miss is a harness failure (exit 2), never a verdict
 )
 
@@ -81,6 +82,7 @@ type sys struct {
 	nStart   int
 	nCkpt    int
 	nErr     int
+	runaway  bool // more than maxExecutions executions: recording stopped
 	sentExec map[scheduler.ID]int
 	sentCk   map[scheduler.ID]int
 	seen     map[[2]int]int // (id,occ) -> number of executions (observation: re-runs across epochs)
@@ -110,6 +112,15 @@ func (y *sys) Execute(ctx context.Context, id scheduler.ID, scheduledFor time.Ti
 	mid := y.model[id]
 	occ := rel(scheduledFor)
 	y.mu.Lock()
+	if y.nStart >= maxExecutions {
+		// far more executions than any behaviour can ask for: the scheduler keeps handing something out.
+		// Stop recording (what is recorded is more than enough for the specification to judge) and let
+		// settle() give this instance up.
+		y.runaway = true
+		y.mu.Unlock()
+		y.ping()
+		return nil
+	}
 	y.seq++
 	y.nStart++
 	y.seen[[2]int{mid, occ}]++
@@ -148,6 +159,10 @@ func (y *sys) UpdateLastScheduled(ctx context.Context, id scheduler.ID, t time.T
 	}
 	mid := y.model[id]
 	y.mu.Lock()
+	if y.runaway {
+		y.mu.Unlock()
+		return nil
+	}
 	y.nCkpt++
 	y.ckpts = append(y.ckpts, &ckpt{id: mid, occ: rel(t)})
 	y.t.Event("Ckpt", rt.M{"id": mid, "occ": rel(t)})
@@ -267,11 +282,19 @@ func (y *sys) waitFor(what string, pred func() bool, giveUp func() bool) bool {
 	}
 }
 
-func schedString(k string, e int) string {
-	if k == "every" {
+// schedString: "@every Ns", cron "*/N * * * * * *", or - kind "until" - a cron expression with a year field that is
+// confined to the first minute of model time and to the seconds 0..end: it has a LAST occurrence (the largest
+// multiple of N <= end); after it cron.Next fails ("could not fulfil schedule due to year").
+func schedString(k string, e, end int) string {
+	switch {
+	case k == "every":
 		return fmt.Sprintf("@every %ds", e)
-	}
-	if e == 1 {
+	case k == "until":
+		if end < 1 || end > 59 {
+			rt.Fatalf("c17: ending schedule with end=%d (must be 1..59)", end)
+		}
+		return fmt.Sprintf("0-%d/%d %d %d %d %d * %d", end, e, base.Minute(), base.Hour(), base.Day(), int(base.Month()), base.Year())
+	case e == 1:
 		return "* * * * * * *"
 	}
 	return fmt.Sprintf("*/%d * * * * * *", e)
@@ -307,25 +330,25 @@ func (y *sys) safeAdd(d int, locked func()) bool {
 func (y *sys) kick() { y.safeAdd(0, nil) }
 
 // callSchedule / callRelease / advance: the environment's moves, logged before and after.
-func (y *sys) callSchedule(id int, k string, e, o, last int) {
+func (y *sys) callSchedule(id int, k string, e, o, end, last int) {
 	if y.viaCoordinator(k, e, last) {
-		y.coordSchedule(id, k, e, o, last)
+		y.coordSchedule(id, k, e, o, end, last)
 		return
 	}
-	sc, _, err := scheduler.NewSchedule(schedString(k, e), base)
+	sc, _, err := scheduler.NewSchedule(schedString(k, e, end), base)
 	if err != nil {
-		rt.Fatalf("c17: NewSchedule(%q): %v", schedString(k, e), err)
+		rt.Fatalf("c17: NewSchedule(%q): %v", schedString(k, e, end), err)
 	}
-	if y.co != nil {
-		y.co.sched[id] = true
-		// scheduled behind the coordinator's back: the next coordinator move for this id starts from no record
-		delete(y.co.tasks, id)
-	}
-	y.t.Event("Call", rt.M{"t": "S", "id": id, "k": k, "e": e, "o": o, "last": last})
+	y.t.Event("Call", rt.M{"t": "S", "id": id, "k": k, "e": e, "o": o, "end": end, "last": last})
 	var rerr error
 	y.within("Schedule", func() {
 		rerr = y.s.Schedule(schedulable{y.real[id], sc, time.Duration(o) * time.Second, base.Add(time.Duration(last) * time.Second)})
 	})
+	if y.co != nil && rerr == nil {
+		y.co.sched[id] = true
+		// scheduled behind the coordinator's back: the next coordinator move for this id starts from no record
+		delete(y.co.tasks, id)
+	}
 	y.t.Event("Ret", rt.M{"err": errStr(rerr)})
 	y.kick()
 }
@@ -418,7 +441,13 @@ func (y *sys) flush() {
 func (y *sys) settle() {
 	end := time.Now().Add(deadline)
 	for {
-		y.waitFor("executions to finish", func() bool { return y.nStart == y.nCkpt }, nil)
+		y.waitFor("executions to finish", func() bool { return y.runaway || y.nStart == y.nCkpt }, nil)
+		y.mu.Lock()
+		ra := y.runaway
+		y.mu.Unlock()
+		if ra {
+			y.fatal("runaway: the scheduler handed out more than %d executions", maxExecutions)
+		}
 		if !y.selfQuiescent() {
 			if time.Now().After(end) {
 				y.fatal("scheduler still has due work after %v (When=%d now=%d chanlen=%d)", deadline, rel(y.s.When()), rel(y.mock.Now()), y.chanLen())
